@@ -36,3 +36,14 @@ Lemma normalize_ascii : forallb (fun b => normalize_quote b =? b) upto128 = true
 Proof. vm_compute; reflexivity. Qed.
 Lemma unicode_quote_ascii : forallb (fun b => negb (is_unicode_quote b)) upto128 = true.
 Proof. vm_compute; reflexivity. Qed.
+
+(* the kinds of quoted identifiers are not keyword kinds *)
+Lemma dq_not_keyword : forallb (fun kv => negb (snd kv =? TT_DoubleQuotedString)) (keywords ++ compound_keywords) = true.
+Proof. vm_compute; reflexivity. Qed.
+Lemma ident_not_keyword : forallb (fun kv => negb (snd kv =? TT_Identifier)) (keywords ++ compound_keywords) = true.
+Proof. vm_compute; reflexivity. Qed.
+(* dispatch facts for the two ASCII identifier quotes *)
+Lemma dispatch_dq : is_ident_start 34 = false /\ is_digit 34 = false /\ normalize_quote 34 = 34.
+Proof. vm_compute; auto. Qed.
+Lemma dispatch_bt : is_ident_start 96 = false /\ is_digit 96 = false /\ is_unicode_quote 96 = false.
+Proof. vm_compute; auto. Qed.
